@@ -36,9 +36,15 @@ C10)
   build "$W/free" ./cmd/c10 -race -tags free || exit 3
   export VERIF_FREE_BIN="$W/free"
   ;;
-C09|C11)
+C09)
   instr $REPO/machine/disk/file.go=unix
   build "$W/bin" ./cmd/$LC -overlay "$W/ov.json" || exit 3
+  ;;
+C11)
+  instr $REPO/machine/disk/file.go=unix
+  build "$W/bin" ./cmd/$LC -overlay "$W/ov.json" || exit 3
+  build "$W/free" ./cmd/$LC -race -tags free || exit 3
+  export VERIF_FREE_BIN="$W/free"
   ;;
 C12)
   instr $REPO/machine/filesys/dir.go=unix
